@@ -3,7 +3,7 @@
 //! 0xffff_ffff is the 64-bit escape). The 4 bytes written do not read back as that length: `read_initial_length`
 //! rejects them (UnknownReservedLength) or takes them for the DWARF64 escape. `write::Error::InitialLengthOverflow`
 //! exists for this case but is never returned by any function.
-//! Minimal fix: in `write_initial_length_at`, `if format == Format::Dwarf32 && length >= 0xffff_fff0 { return
+//! FIXED in /repo 3c89b90 (this program now prints `F-wcore-1: ok`). The fix: in `write_initial_length_at`, `if format == Format::Dwarf32 && length >= 0xffff_fff0 { return
 //! Err(Error::InitialLengthOverflow); }` before `write_udata_at`.
 use gimli::write::{EndianVec, Writer};
 use gimli::{EndianSlice, Format, LittleEndian, Reader};
